@@ -106,6 +106,8 @@ pub fn main_loop(dispatch: fn(&str, &str, &str, u64) -> Option<String>) {
     let mut case = String::new();
     let mut idx = 0usize;
     let mut skip_next = false;
+    let history = std::env::var("PV_HISTORY").is_ok();
+    let mut records: Vec<(String, usize, String, String, u64, String)> = Vec::new();
     for line in stdin.lock().lines() {
         let line = line.unwrap();
         if skip_next {
@@ -119,10 +121,16 @@ pub fn main_loop(dispatch: fn(&str, &str, &str, u64) -> Option<String>) {
             skip_next = true; // the sexp line
         } else if parts.len() == 4 && parts[0] == "I" {
             let rule = atom_str(parts[1]);
+            let u: u64 = parts[3].parse().unwrap_or(0);
             let res = match unhex(parts[2]).and_then(|b| String::from_utf8(b).ok()) {
                 None => "BADINPUT".to_string(),
-                Some(input) => match dispatch(&case, &rule, &input, parts[3].parse().unwrap_or(0)) {
-                    Some(s) => s,
+                Some(input) => match dispatch(&case, &rule, &input, u) {
+                    Some(s) => {
+                        if history {
+                            records.push((case.clone(), idx, rule.clone(), input.clone(), u, s.clone()));
+                        }
+                        s
+                    }
                     None => "NORULE".to_string(),
                 },
             };
@@ -130,5 +138,75 @@ pub fn main_loop(dispatch: fn(&str, &str, &str, u64) -> Option<String>) {
             out.flush().unwrap();
             idx += 1;
         }
+    }
+    if history {
+        history_check(dispatch, &records, &mut out);
+    }
+}
+
+fn lcg(x: &mut u64) -> u64 {
+    *x = x.wrapping_mul(6364136223846793005).wrapping_add(1442695040888963407);
+    *x >> 33
+}
+
+/// C20: every input again, in another order, after all the others; then all of them from 16 threads
+/// with randomised yields.  Each re-execution must reproduce the first result exactly.
+fn history_check<W: Write>(
+    dispatch: fn(&str, &str, &str, u64) -> Option<String>,
+    records: &[(String, usize, String, String, u64, String)],
+    out: &mut W,
+) {
+    let seed: u64 = std::env::var("PV_SEED").ok().and_then(|s| s.parse().ok()).unwrap_or(1);
+    let mut rng = seed ^ 0x9e3779b97f4a7c15;
+    let n = records.len();
+    let mut order: Vec<usize> = (0..n).collect();
+    for i in (1..n).rev() {
+        let j = (lcg(&mut rng) as usize) % (i + 1);
+        order.swap(i, j);
+    }
+    let mut seq_runs = 0usize;
+    let mut diffs: Vec<String> = Vec::new();
+    for &k in order.iter().chain(order.iter().rev()) {
+        let r = &records[k];
+        let got = dispatch(&r.0, &r.2, &r.3, r.4).unwrap_or_default();
+        seq_runs += 1;
+        if got != r.5 {
+            diffs.push(format!("#HD\t{}\t{}\tsequential\t{}", r.0, r.1, got.replace('\t', " | ")));
+        }
+    }
+    let threads = 16usize;
+    let thr_diffs = std::sync::Mutex::new(Vec::<String>::new());
+    let thr_runs = std::sync::atomic::AtomicUsize::new(0);
+    std::thread::scope(|sc| {
+        for t in 0..threads {
+            let thr_diffs = &thr_diffs;
+            let thr_runs = &thr_runs;
+            sc.spawn(move || {
+                let mut rng = seed.wrapping_add(t as u64 * 7919) ^ 0xdeadbeef;
+                // every thread takes a random half of all records, in its own order, so that the same
+                // grammar (and the same input) is parsed by several threads at once
+                let mut mine: Vec<usize> = (0..n).filter(|_| lcg(&mut rng) % 2 == 0).collect();
+                for i in (1..mine.len()).rev() {
+                    let j = (lcg(&mut rng) as usize) % (i + 1);
+                    mine.swap(i, j);
+                }
+                for k in mine {
+                    if lcg(&mut rng) % 4 == 0 {
+                        std::thread::yield_now();
+                    }
+                    let r = &records[k];
+                    let got = dispatch(&r.0, &r.2, &r.3, r.4).unwrap_or_default();
+                    thr_runs.fetch_add(1, std::sync::atomic::Ordering::Relaxed);
+                    if got != r.5 {
+                        thr_diffs.lock().unwrap().push(format!("#HD\t{}\t{}\tthread{}\t{}", r.0, r.1, t, got.replace('\t', " | ")));
+                    }
+                }
+            });
+        }
+    });
+    diffs.extend(thr_diffs.into_inner().unwrap());
+    writeln!(out, "#H\t{}\t{}\t{}\t{}", n, seq_runs, thr_runs.load(std::sync::atomic::Ordering::Relaxed), diffs.len()).unwrap();
+    for d in diffs.iter().take(50) {
+        writeln!(out, "{}", d).unwrap();
     }
 }
